@@ -2,7 +2,7 @@
 # function decide the property, how many generated cases per shard, how many
 # shard processes, the wall-clock budget (hitting it = inconclusive, exit 2).
 
-HOOK_COMMITS = []
+HOOK_COMMITS = ["eaf80dc8"]
 NOT_APPLICABLE = {}
 
 
@@ -39,6 +39,12 @@ CHECKS = {
              "rapid generated declarations + boundary-biased observation sequences vs bucket model; compiled declaration, datum API, program lines and Prometheus export",
              "Generated histogram declarations are compiled, observations at/around every boundary (plus NaN, Inf, negatives) are fed through the API and through program lines, and per-bucket counts, count, sum, the set of upper bounds and the parsed Prometheus exposition are compared with a 10-line bucket model.",
              "Trusted: the bucket model, expfmt.TextParser. Sampling.",
+             q={"checks": 3000, "shards": 1, "timeout": 300},
+             t={"checks": 30000, "shards": 16, "timeout": 1500}),
+    "C13": P("pure", "TestC13",
+             "rapid generated stores x exporter options; server-style scrape parsed by the Prometheus text parser vs reference model of expected samples (both directions)",
+             "Generated stores are scraped the way the server does it and the parsed exposition is compared sample by sample with a model derived from the statement: one sample per representable label set, name/labels/value/type/timestamp, histogram buckets; nothing else; unrepresentable label sets absent while everything else is present.",
+             "Trusted: expfmt.TextParser, the harness's representability predicate (legacy Prometheus name rules). Sampling.",
              q={"checks": 3000, "shards": 1, "timeout": 300},
              t={"checks": 30000, "shards": 16, "timeout": 1500}),
 }
